@@ -889,6 +889,94 @@ func runK7scen(r *rng, n int) {
 			}
 			emit("k7scen name=cut-with-request-in-backend => returned_early=%d closed_early=%d returned=%d %s", retEarly, early, ret, s.be.lifecycle())
 		}
+		// ... and when the request inside the backend is one that *produces* a File (a walk): the File it
+		// brings back after the cut is closed as well
+		{
+			s := newK7(r, 1)
+			s.walk(0, 0, 1, p9.ModeDirectory|0755, "d")
+			s.call(0, 24, map[string]interface{}{"fid": uint64(1)})
+			g := s.g.arm("WalkGetAttr", 0)
+			s.be.mu.Lock()
+			s.be.forceKind = p9.ModeRegular | 0644
+			s.be.mu.Unlock()
+			s.send(0, 110, map[string]interface{}{"fid": uint64(1), "newFID": uint64(2), "Names": []string{"g"}})
+			entered := g.waitEntered(2 * time.Second)
+			s.conns[0].c.Close()
+			time.Sleep(60 * time.Millisecond)
+			close(g.release)
+			ret := 0
+			select {
+			case <-s.conns[0].done:
+				ret = 1
+			case <-time.After(5 * time.Second):
+			}
+			life := s.be.lifecycle()
+			if !entered {
+				ret, life = 1, "leaks= dbl= uac="
+			}
+			emit("k7scen name=cut-with-a-walk-in-the-backend => returned=%d %s", ret, life)
+		}
+		// two Tclunk of one fid in flight together (the first held inside the xattr commit): looking the
+		// fid up and unbinding it are one step – exactly one of them is answered Rclunk, the other EBADF
+		{
+			s := newK7(r, 1)
+			s.walk(0, 0, 1, p9.ModeRegular|0644, "f")
+			s.call(0, 32, map[string]interface{}{"fid": uint64(1), "Name": "user.x", "AttrSize": uint64(1), "Flags": uint64(0)})
+			s.call(0, 118, map[string]interface{}{"fid": uint64(1), "Offset": uint64(0), "Data": []byte("z")})
+			g := s.g.arm("SetXattr", 0)
+			s.send(0, 120, map[string]interface{}{"fid": uint64(1)})
+			entered := g.waitEntered(2 * time.Second)
+			s.send(0, 120, map[string]interface{}{"fid": uint64(1)})
+			rclunk, ebadf := 0, 0
+			tally := func() {
+				if _, rt, errno, ok := s.recvReply(0, 3*time.Second); ok {
+					if rt == 121 {
+						rclunk++
+					} else if rt == 7 && errno == 9 {
+						ebadf++
+					}
+				}
+			}
+			tally()
+			close(g.release)
+			tally()
+			s.close()
+			if !entered {
+				rclunk, ebadf = 1, 1
+			}
+			emit("k7scen name=two-tclunk-one-fid => rclunk=%d ebadf=%d", rclunk, ebadf)
+		}
+		// an unlink that the backend refuses changes nothing: the entry keeps its path node, so a fid walked
+		// to it afterwards shares the lock of a fid walked before (SetAttr through one excludes GetAttr
+		// through the other)
+		{
+			s := newK7(r, 2)
+			s.walk(0, 0, 1, p9.ModeDirectory|0755, "x")
+			s.be.mu.Lock()
+			s.be.errOn = "UnlinkAt"
+			s.be.mu.Unlock()
+			refused := s.call(0, 76, map[string]interface{}{"Directory": uint64(0), "Name": "x", "Flags": uint64(0x200)})
+			s.walk(1, 0, 2, p9.ModeDirectory|0755, "x")
+			g := s.g.arm("SetAttr", 0)
+			s.send(0, 26, map[string]interface{}{"fid": uint64(1)})
+			entered := g.waitEntered(2 * time.Second)
+			g2 := s.g.arm("GetAttr", 0)
+			s.send(1, 24, map[string]interface{}{"fid": uint64(2)})
+			overlapped := 0
+			if g2.waitEntered(150 * time.Millisecond) {
+				overlapped = 1
+			}
+			close(g.release)
+			g2.waitEntered(2 * time.Second)
+			close(g2.release)
+			s.recvReply(0, 3*time.Second)
+			s.recvReply(1, 3*time.Second)
+			s.close()
+			if !entered || refused != 7 {
+				overlapped = 0
+			}
+			emit("k7scen name=refused-unlink-keeps-the-path-node => overlapped=%d", overlapped)
+		}
 		// a backend panic inside UnlinkAt is answered EFAULT and leaves no lock behind: the entry's
 		// other fid, and a second unlink of the name, are still served
 		{
